@@ -63,6 +63,10 @@ def gen_immediate(rng):
     expect = {}
     seq = 0
     status = "disconnected"
+    if rng.random() < 0.3:
+        # the event type was an ordinary Bevy event first and one event was written before it was registered as a client event
+        lines = ["cfg plugins=full early=9000"] + (["server start"] if rng.random() < 0.5 else []) + ["frame 16"]
+        expect[9000] = dict(kind="ce", full=True, status="disconnected", running=False)
     for _ in range(rng.randrange(2, 6)):
         if status == "disconnected":
             if rng.random() < 0.6:
